@@ -19,8 +19,12 @@ RULE = ('exhaustive (n,N) pairs up to the tier bound (pad n->N and crop N->n, ev
         'data, transposed and strided inputs on a smaller sweep; every mixed grow/shrink request up to 6x6 (must raise); '
         'grids (tuple and scalar shape, grid=True/False, dx>0, dx<0, diameter=), frequency axes (shift=True/False, keyword and '
         'positional), RichData.x / .y / slices() and centroids (spatial and pixels) for every length / shape up to the bound; '
-        'Wavefront.pad2d / crop with Q, out_shape, value, mode, inplace True/False; a case is non-trivial unless n == N or '
-        'n == 1; distinct = distinct (item, input) tuples')
+        'Wavefront.pad2d / crop with Q, out_shape, value, mode, inplace True/False; index-valued 1-D data through pad2d / '
+        'crop_center along either axis (index maps), np.fft shifts, the Slices object against the model; autocrop for every '
+        'centroid position x width that fits; estimate_size on non-square Gaussians; RichData.r / t / support / exact_x / exact_y / '
+        'exact_xy fresh and on copies; fourier_resample with scalar / tuple / list zoom; pad2d on 1-D and 3-D arrays; pad-pad and '
+        'crop-crop compositions for every parity triple; centroids of random extended data (ctx.rng) before / after zero padding; '
+        'a case is non-trivial unless n == N or n == 1; distinct = distinct (item, input) tuples')
 ASSUMPTIONS = ['scipy.ndimage.center_of_mass returns the first moment / total (trusted; compared on every point source)',
                'np.pad / slicing / np.meshgrid / np.roll semantics (trusted; compared on every case)',
                'np.argmin(abs(v)) returns an index of a minimal |v[k]| (specification `IsArgminAbs` of the slices theorem)']
@@ -1476,7 +1480,20 @@ MANIFEST_ENTRY = {
              'centre of mass (first moment / total, as 2-D sums) of a point source at (p, q) is (p, q), so it reads '
              '((p - m//2) dx, (q - n//2) dx); '
              '(7) Wavefront.pad2d / crop bind every argument of fttools.pad2d / crop_center to its namesake and store / return the '
-             'result (three-valued AST fact: unrecognised spelling degrades the tie, a wrong binding fails). '
+             'result (three-valued AST fact: unrecognised spelling degrades the tie, a wrong binding fails); '
+             '(8) compositions: pad n->N->P places the data where pad n->P does and crop n->N->P keeps what crop n->P keeps; the 2-D '
+             'constant-mode pad is a bijective copy of the input onto the written block and maps nothing outside it '
+             '(pad2d(crop_center(x)) = x on the block); ifftshift and fftshift invert each other as index maps for every n; the '
+             'frequency-axis numerators are the samples of fftrange(n); '
+             '(9) zero padding does not move the spatial centroid of ANY data with non-zero total (finite-sum algebra over the 2-D '
+             'sums, every parity combination): centroid(pad2d(d), dx) = centroid(d, dx); '
+             '(10) psf.autocrop: the translated window is px wide on both axes, the (integer) centroid sample lands on its origin '
+             'sample px//2, axis 0 follows the row centroid; it is the crop_center window when the centroid is the origin sample; '
+             '(11) psf.estimate_size (fwhm, 1/e, 1/e^2) with dx only measures on the vectors of make_xy_grid(shape, dx, grid=False) '
+             '(x from the column count, y from the row count); RichData.support_x / support_y are columns dx / rows dx = extent '
+             'of the coordinate vector plus one sample; '
+             '(12) fttools.fourier_resample (live statements): the shift pair around its FFT brings sample n//2 to FFT index 0 and '
+             'the zero-frequency bin back to n//2, and axis k of the output has int(shape[k] zoom[k]) samples. '
              'COMPARED ONLY (bounded enumeration on the real functions, integer-exact where integers are involved): NumPy plumbing '
              '(slicing, 12 np.pad modes and fill values, meshgrid, roll, argmin and center_of_mass in floating point) for all (n, N) '
              'up to 40 (quick) / 128 (thorough); integer / list / tuple out_shape, Q = 1 with out_shape, int64 / float32 / '
@@ -1485,9 +1502,19 @@ MANIFEST_ENTRY = {
              'space); the FFT itself on the focus / unfocus route up to 11x11 / 23x23; requests that shrink an axis through pad2d raise ValueError '
              '(all shapes up to 5 / 7); re-requested grids after in-place edits of earlier results; array centres written as '
              'ceil(n/2) in segmented.py / x/shack_hartmann.py and the shift pairs of interferogram.psd / '
-             'synthesize_surface_from_psd still centre on n//2 for odd sizes (7 shapes / up to 9x9). '
-             'NOT COVERED: dx = 0 (degenerate all-zero grid: Slices then takes index 0); Slices.azavg / exact_x / exact_y; '
-             'psf.autocrop; non-NumPy backends; config.precision = float32 is tolerated by the comparisons but not swept.'),
+             'synthesize_surface_from_psd still centre on n//2 for odd sizes (7 shapes / up to 9x9); the model\'s 1-D index maps '
+             '(padSrc / cropSrc), roll / shift constants, Slices centre and cuts (argmin over exact rationals), grid=False vectors '
+             'and diameter spacing executed by the driver against the real functions (pairs up to 24 / 48, lengths up to 130, '
+             'shapes up to 9x9 / 14x14); autocrop windows (every position x width 1..8 that fits, 4 / 6 shapes); estimate_size '
+             'dx-route = vector-route (shapes 16..23 / 33); RichData.r (zero only on the origin sample), support, exact_x / '
+             'exact_y / exact_xy at sample coordinates, also on copy(); fourier_resample keeps a centred Gaussian on the origin '
+             'sample (8..19 / 39 per axis; the matrix DFT it calls belongs to C01/C03); pad2d on 1-D and 3-D arrays, tuple-of-NumPy-'
+             'integer and ndarray out_shape; pad-pad / crop-crop compositions up to 9 / 13; centroid of random extended data and '
+             'symmetric blobs before / after zero padding. '
+             'NOT COVERED: dx = 0 (degenerate all-zero grid: Slices then takes index 0); Slices.azavg and the other azimuthal '
+             'statistics; the radius returned by estimate_size (only its coordinates); autocrop windows that leave the array; a '
+             'NumPy integer SCALAR out_shape (pad2d / crop_center raise TypeError: a refusal, not a misplacement); non-NumPy '
+             'backends; config.precision = float32 is tolerated by the comparisons but not swept.'),
     'note': ('Trusted: Lean kernel + propext/Classical.choice/Quot.sound; the ast->Lean translator (tools/gen_c04.py: its reading '
              'of comprehensions, tuple unpacking, np.meshgrid(xy) and subscript forms is validated by executing model vs code on '
              'the exhaustive small domain each run); NumPy slicing / np.pad / np.roll / np.argmin and scipy.ndimage.center_of_mass '
